@@ -318,6 +318,10 @@ async def execute(gen, ops, w: SockWorld, run: Run, counters=None):
         elif o == "slow_conn":
             # the next connected=True notification takes op[1] seconds in a subscriber
             w.conn_delays.append(op[1])
+        elif o == "slow_msg":
+            # the next received message keeps its subscriber (and with it the client's
+            # receive loop) busy for op[1] seconds
+            w.msg_delays.append(op[1])
         elif o == "sub_raise":
             if op[1] == "msg":
                 w.raise_in_msg_sub = bool(op[2])
